@@ -934,9 +934,12 @@ func rsaOddSection(x *h.X) {
 		// one-key keyset of every case
 		one := it
 		one.Primary = true
-		sel := make([]int, len(keycat.IOs()))
-		for j := range sel {
-			sel[j] = j
+		sel := []int{0, 1, 3, 9, 10, 20, 40, 60, 71} // private keysets: RSA key validation on every read is slow
+		if half == "public" {
+			sel = make([]int, len(keycat.IOs()))
+			for j := range sel {
+				sel[j] = j
+			}
 		}
 		judgeKeyset(x, []keycat.Item{one}, sel)
 		if len(items) == 0 || ref.KSHasIDRequirement(kc.Variant) == false {
